@@ -4,7 +4,7 @@ from fractions import Fraction
 
 from .lit import canon
 
-STYLES = ("repr", "generator", "indented", "fractions", "compact", "crlf", "builtins")
+STYLES = ("repr", "generator", "indented", "fractions", "compact", "crlf", "builtins", "arithmetic")
 
 
 def _num(x, style, rng):
@@ -16,6 +16,18 @@ def _num(x, style, rng):
         return repr(x)
     if x != x or x in (float("inf"), float("-inf")):
         return "float(%r)" % repr(x)
+    if style == "arithmetic" and 0 < x < 1e6 and rng.random() < 0.6:
+        # a value the author computed in the file: compound float arithmetic that Python evaluates to exactly x
+        # (two roundings; evaluating it any other way - exactly, in another order - may land one ulp away)
+        for _ in range(6):
+            a, b = round(rng.uniform(0.05, 0.95), rng.choice([1, 2, 3])), rng.choice([3, 7, 0.3, 0.7, 1.1, 9])
+            forms = [("(%r / %r + %r)", lambda r_: a / b + r_, lambda: x - a / b),
+                     ("(%r * %r + %r)", lambda r_: a * b + r_, lambda: x - a * b),
+                     ("(1 - %r / %r - %r)", lambda r_: 1 - a / b - r_, lambda: 1 - a / b - x)]
+            fmt, ev, rest = forms[rng.randrange(3)]
+            c = rest()
+            if c == c and abs(c) < 1e9 and ev(c) == x and isinstance(c, float):
+                return fmt % (a, b, c)
     if style == "fractions":
         fr = Fraction(x).limit_denominator(64)
         if fr.denominator > 1 and fr.numerator / fr.denominator == x:
